@@ -81,7 +81,7 @@ def pattern_flags(case):
                 flags["reg_known_down"] = True
                 if a in wrongkey:
                     flags["reg_down_after_wrongkey"] = True
-            if b in (0, 2, 5) and up.get(a, True):
+            if b in (0, 2, 5, 6) and up.get(a, True):
                 registered.add(a)
     return flags
 
@@ -185,7 +185,7 @@ def hist(s):
 ADD_CLASS = {0: "accept", 1: "signature of another key", 2: "undecodable signature", 3: "subscription error (7)", 4: "other API error",
              5: "non-JSON", 6: "JSON of another shape", 7: "empty body", 8: "1 MB body", 9: "connection reset", 10: "right keys, wrong types"}
 REG_CLASS = {0: "good receipt", 1: "signature of another key", 2: "not extending (same expiry)", 3: "non-JSON", 4: "API error",
-             5: "not extending (later expiry, no more slots)"}
+             5: "not extending (later expiry, no more slots)", 6: "not extending (more slots, same expiry)"}
 
 
 def run_property(ctx, pid, targets, rule, assumptions):
